@@ -2040,7 +2040,15 @@ class QuantifiedConditional(LogicalBinaryOperator, ABC):
             for node in [self.condition, *self.condition._descendants_]
             if isinstance(node, QuantifiedConditional)
         }
-        return [
+        # a nested query (an / the inside the condition) that was evaluated has bound its own value besides the one of
+        # its variable: kept together, else it is evaluated again with its variable bound already and counts one
+        # solution
+        nested_queries = [
+            node._id_
+            for node in [self.condition, *self.condition._descendants_]
+            if isinstance(node, ResultQuantifier)
+        ]
+        return nested_queries + [
             v.id_
             for v in self.condition._unique_variables_.difference(
                 self.left._unique_variables_
